@@ -88,8 +88,25 @@ impl Out {
   }
 }
 
+pub static LAST_PANIC: std::sync::Mutex<String> = std::sync::Mutex::new(String::new());
+
+/// panics of the code under test are outcomes (`guard`): nothing is printed, the place and message of
+/// the last one are kept so that an UNGUARDED panic (a defect of the harness, or an input from the
+/// code under test that the harness trusted) can be named when it ends the run
 pub fn silence_panics() {
-  std::panic::set_hook(Box::new(|_| {}));
+  std::panic::set_hook(Box::new(|info| {
+    let loc = info.location().map(|l| format!("{}:{}", l.file(), l.line())).unwrap_or_default();
+    let msg = if let Some(s) = info.payload().downcast_ref::<&str>() {
+      s.to_string()
+    } else if let Some(s) = info.payload().downcast_ref::<String>() {
+      s.clone()
+    } else {
+      String::new()
+    };
+    if let Ok(mut g) = LAST_PANIC.lock() {
+      *g = format!("{loc}: {}", msg.chars().take(200).collect::<String>());
+    }
+  }));
 }
 
 /// run `f`; a panic becomes the JSON string "panic"
